@@ -469,3 +469,29 @@ func DubboGrid(target string, yield func(Case) bool) bool {
 	}
 	return true
 }
+
+// TarsAbsurdMapCount reports whether b contains, at ANY offset behind the 4-byte packet length, a tars MAP
+// head (type nibble 8, any tag) directly followed by a tag-0 INT (0x02) of 2^20 or more: an announced map
+// size that the packet cannot possibly hold. TarsGo's generated ReadFrom then iterates that many times
+// over optional reads that silently do nothing at the end of the data (about 1 s per 2^25 entries, up to
+// a minute for 2^31-1; no allocation; the call returns, mostly with a frame). Such inputs are not executed:
+// the per-call oracle has no verdict on a call that returns (the statement says "loops forever"), and a
+// few hundred of them would take the check hours (three of them are single-byte corruptions of alphabet
+// frames: 48 s per call). Recorded as observation O1 in findings/C08.md. (A raw scan: it does not matter
+// whether the offset is a TLV boundary; the LIST form - type nibble 9, the sBuffer guard of
+// tars/decoder.go - is NOT excluded.)
+func TarsAbsurdMapCount(b []byte) bool {
+	for i := 4; i+6 <= len(b); i++ {
+		if b[i]&0x0f != 8 {
+			continue
+		}
+		j := i + 1
+		if b[i]>>4 == 15 { // two-byte head
+			j++
+		}
+		if j+5 <= len(b) && b[j] == 0x02 && int32(binary.BigEndian.Uint32(b[j+1:])) >= 1<<20 {
+			return true
+		}
+	}
+	return false
+}
